@@ -119,6 +119,12 @@ impl Check for RwaReal {
         }
         (cfg, steps)
     }
+    fn dup_ok(&self, _s: &Step) -> bool {
+        true
+    }
+    fn reorder_ok(&self) -> bool {
+        true
+    }
     fn property_of(&self, check: &str) -> std::vec::Vec<&'static str> {
         if check.starts_with("modules.") {
             vec!["C20"]
